@@ -4,12 +4,19 @@
     (reset)                                        → ok       -- empty storage
     (req "<query>" none)                           → reply
     (req "<query>" (ext one|other none|"<hashHex>"))→ reply
+    (greq "<query>" doc|nodoc <extensions>)        → reply    -- Go-level request: the driver applies `Go.abs`
+        <extensions> := (nilmap) | (map ("<key>" <value>) …)
+        <value>      := (nil) | (bool true|false) | (f64 <IEEE bits, decimal>) | (int n) | (int64 n) | (str "…")
+                      | (nilmap) | (map ("<key>" <value>) …) | (slice <value> …) | (other "<Go type>")
+        the reply carries a fourth member, the abstraction that was applied: none | (ext one|other (str "…")|nostr)
+    (evict "<hex>")                                → ok       -- the storage loses what it held under that key
   reply := (out (executed "<text>")|notFound (calls (get "<hex>") | (put "<text>" "<hex>") …))
   Digests travel as lower-case hex strings; the model works on byte lists.
 -/
 import ApiFu.Common.Sexp
 import ApiFu.Common.Loop
 import ApiFu.C18.Model
+import ApiFu.C18.Abs
 import ApiFu.C18.Sha256
 
 open ApiFu ApiFu.C18
@@ -40,6 +47,29 @@ def outSexp : Out → Sexp
   | .executed t => Sexp.node "executed" [Sexp.str t]
   | .notFound => Sexp.atom "notFound"
 
+partial def parseValue : Sexp → Option Go.Value
+  | Sexp.list [Sexp.atom "nil"] => some .nil
+  | Sexp.list [Sexp.atom "bool", Sexp.atom b] => some (.bool (b == "true"))
+  | Sexp.list [Sexp.atom "f64", Sexp.atom n] => n.toNat?.map fun b => .float64 ⟨b⟩
+  | Sexp.list [Sexp.atom "int", Sexp.atom n] => n.toInt?.map .int
+  | Sexp.list [Sexp.atom "int64", Sexp.atom n] => n.toInt?.map .int64
+  | Sexp.list [Sexp.atom "str", Sexp.atom t] => some (.string t)
+  | Sexp.list [Sexp.atom "nilmap"] => some (.map none)
+  | Sexp.list [Sexp.atom "other", Sexp.atom t] => some (.other t)
+  | Sexp.list (Sexp.atom "map" :: kvs) =>
+    (kvs.mapM fun kv => match kv with
+      | Sexp.list [Sexp.atom k, v] => (parseValue v).map fun v' => (k, v')
+      | _ => none).map fun l => .map (some l)
+  | Sexp.list (Sexp.atom "slice" :: vs) => (vs.mapM parseValue).map .slice
+  | _ => none
+
+def extSexp : Option Ext → Sexp
+  | none => Sexp.atom "none"
+  | some e => Sexp.node "ext" [Sexp.atom (if e.version == .one then "one" else "other"),
+      match e.hashHex with
+      | some h => Sexp.node "str" [Sexp.str h]
+      | none => Sexp.atom "nostr"]
+
 def handle (st : St) (line : String) : St × String :=
   match Sexp.parse line with
   | some (Sexp.list [Sexp.atom "hash", Sexp.atom t, Sexp.atom hex]) =>
@@ -59,6 +89,15 @@ def handle (st : St) (line : String) : St × String :=
     | some ext =>
       let (s', calls, out) := step Sha256.ofString st.storage { query := q, ext := ext }
       ({ st with storage := s' }, toString (Sexp.node "out" [outSexp out, Sexp.list (calls.map callSexp)]))
+  | some (Sexp.list [Sexp.atom "evict", Sexp.atom hex]) =>
+    ({ st with storage := st.storage.evict (hexDecodePrefix hex.toList) }, "ok")
+  | some (Sexp.list [Sexp.atom "greq", Sexp.atom q, Sexp.atom d, e]) =>
+    match parseValue e with
+    | some (.map m) =>
+      let r : Req := Go.abs { Query := q, Document := if d == "doc" then some 1 else none, Extensions := m }
+      let (s', calls, out) := step Sha256.ofString st.storage r
+      ({ st with storage := s' }, toString (Sexp.node "out" [outSexp out, Sexp.list (calls.map callSexp), extSexp r.ext]))
+    | _ => (st, "bad-op")
   | _ => (st, "bad-op")
 
 def main : IO Unit := lineLoop handle {}
